@@ -77,6 +77,9 @@ theorem forest_proba_entry (n K : Nat) (m : Mat) (ms : List Mat) (h : ∀ M ∈ 
   intro i c
   rw [Lem.scaleMat_entry, (Lem.sumMats_entry m ms h i c).1]
 
+example : Lem.entry [[1/3, 2/3], [2/3, 1/3]] 1 0 = (([[[1, 0], [1/2, 1/2]], [[0, 1], [1/2, 1/2]], [[0, 1], [1, 0]]] : List Mat).map
+    (fun M => Lem.entry M 1 0)).sum / 3 := by decide +kernel
+
 /-- numpy refuses to add matrices of different widths: a forest whose members disagree on the number
 of classes (and are not all single-column) cannot return probabilities -/
 theorem forest_ragged_members_rejected (K : Nat) (m : Mat) (ms : List Mat)
@@ -171,6 +174,8 @@ theorem votes_empty_ensemble_not_distribution (classes : List Label) (n : Nat) :
     Nat.cast_zero]
   rw [Lem.pyDiv_map_zero]
   simp [zeros]
+
+example : bossProba [.int 0, .int 1] 2 [] = .ok [[none, none], [none, none]] := by decide +kernel
 
 /-- KNOWN FINDING (cBOSS / TDE, every retained member has train accuracy 0): a zero total weight gives
 NaN in every entry, whatever the members predict. -/
@@ -336,6 +341,9 @@ theorem var_is_sqrt_radicand (xs : Row) (hx : xs ≠ []) :
     var? xs = some (variance xs) ∧ 0 ≤ variance xs ∧ ∀ s, IsSqrt s (variance xs) → s * s = variance xs ∧ 0 ≤ s := by
   exact ⟨Lem.var?_eq xs hx, Lem.variance_nonneg xs, fun s hs => ⟨hs.2, hs.1⟩⟩
 
+example : var? [1, 2, 4] = some (14/9) := by decide +kernel
+example : IsSqrt (3/2) (variance [1, 4, 1, 4]) := by unfold IsSqrt; decide +kernel
+
 /-- `_transform`: the row handed to a tree has three entries per fitted interval `[a, b)`: the mean,
 the variance (`np.std` squared) and the OLS slope of `X[i, a:b]` (intervals of at least two points) -/
 theorem features_are_mean_var_slope (ivs : List (Nat × Nat)) (row : Row) (j a b : Nat)
@@ -392,6 +400,11 @@ theorem tsf_proba_eq_mean_of_trees_on_features (K : Nat) (trees : List Tree) (in
     simp [Lem.entry, transform, List.getD_eq_getElem?_getD, List.getElem?_eq_getElem hi]
   simp only [hfun, List.length_zipWith, ← hlen, Nat.min_self]
 
+/-- two stump-like trees on their own intervals: tree 1 looks at the mean of `[0,2)`, tree 2 at the slope of `[1,3)` -/
+example : tsfProba 2
+    [fun f => if f.head? = some (some (3/2)) then [1, 0] else [0, 1], fun f => if f[2]? = some (some 1) then [1/4, 3/4] else [1, 0]]
+    [[(0, 2)], [(1, 3)]] [[1, 2, 3], [5, 5, 5]] = .ok [[5/8, 3/8], [1/2, 1/2]] := by decide +kernel
+
 /-- `TimeSeriesForestRegressor.predict`: prediction `i` is the mean of the trees' predictions on the
 features of their own intervals -/
 theorem tsf_regressor_eq_mean_of_trees_on_features (trees : List RTree) (intervals : List (List (Nat × Nat)))
@@ -418,6 +431,9 @@ theorem tsf_regressor_eq_mean_of_trees_on_features (trees : List RTree) (interva
     intro t ivs
     simp [transform, List.getD_eq_getElem?_getD, List.getElem?_eq_getElem hi]
   simp only [hfun, List.length_zipWith, ← hlen, Nat.min_self]
+
+example : tsfRegPredict [fun f => (f.head?.getD none).getD 0, fun _ => 10] [[(0, 2)], [(1, 3)]] [[1, 2, 3], [5, 5, 5]] =
+    .ok [23/4, 15/2] := by decide +kernel
 
 /-! ## column ensemble -/
 
@@ -448,6 +464,11 @@ theorem column_ensemble_eq_mean_of_members {α : Type} (n K : Nat) (members : Li
   intro i c
   rw [hE i c, List.map_zipWith]
   simp only [List.length_zipWith, ← hlen, Nat.min_self]
+
+/-- member 1 sees column 0 only, member 2 columns 2 and 0 (in that order) -/
+example : colEnsProba (α := Nat)
+    [fun Z => Z.map (fun inst => if inst = [7] then [1, 0] else [0, 1]), fun Z => Z.map (fun inst => if inst = [9, 7] then [1/2, 1/2] else [0, 1])]
+    [[0], [2, 0]] [[7, 8, 9], [1, 2, 3]] = .ok [[3/4, 1/4], [0, 1]] := by decide +kernel
 
 /-- `fit`: each fitted member gets exactly the positions its entry names; `'drop'` entries and empty
 selections get no member; every position lies inside the panel; a column name is its position. -/
